@@ -6,10 +6,11 @@ THEOREMS = core.pinned('C04')
 def grind(r, make, want_later_than):
     """builds competitor blocks until the hash sorts after (True) / before (False) the reference hash in LevelDB key order"""
     ref, later = want_later_than
-    for _ in range(200):
+    b = None
+    for _ in range(3000):
         b = make()
-        if (b.hash > ref) == later: return b
-    raise RuntimeError('grinding failed')
+        if (b.hash > ref) == later: return b, later
+    return b, (b.hash > ref)          # the reference hash is extreme: keep the competitor with the order it has
 
 def explore(ck):
     r = ck.rng; quick = ck.tier == 'quick'
@@ -39,7 +40,7 @@ def explore(ck):
                 b = mk(); c.add_record(b, h, 0, 0, status=3, ntx=1)
             else:
                 later = kind == 'stale_data_after'
-                b = grind(r, mk, (blocks[h].hash, later))
+                b, later = grind(r, mk, (blocks[h].hash, later))
                 off = c.put_block(1, b.raw)
                 c.add_record(b, h, 1, off, status=(0x2b if kind.startswith('failed') else r.choice([0x0b, 0x1b, 0x0a])), ntx=1)
                 if later: inclass = True
